@@ -19,9 +19,9 @@ def strategy(env):
         feats=st.lists(feat, max_size=5), cluster=st.sampled_from([0, 0, 2, 4, 16]), isize=st.sampled_from([0, 0, 128, 256, 512, 1024]), iratio=st.sampled_from([0, 0, 1024, 4096, 8192, 65536]), ninodes=st.sampled_from([0, 0, 0, 16, 100, 5000]),
         bpg=st.sampled_from([0, 0, 256, 256, 512, 512, 1024, 1024, 2048, 4096, 8192, 777 * 8, 16384, 32768]), flex=st.sampled_from([0, 0, 1, 2, 4, 16, 64]), resv=st.sampled_from([None, None, 0, 1, 5, 17, 50]),
         jsize=st.sampled_from([0, 0, 0, 1, 4, 8]), rev0=st.sampled_from([False] * 9 + [True]), label=st.sampled_from([None, 'lbl', 'a-16-byte-label!', '']), errors=st.sampled_from([None, 'continue', 'remount-ro', 'panic']),
-        stride=st.sampled_from([0, 0, 0, 1, 2, 4, 8, 13, 16, 31, 32, 64, 128]), stripe=st.sampled_from([0, 0, 8, 64]), resize=st.sampled_from([0, 0, 0, 2, 10, 2000, 100000, -1]), rem=st.integers(0, 1400), offset=st.sampled_from([0, 0, 0, 512, 4096, 1000000]), packed=st.booleans(),
+        stride=st.sampled_from([0, 0, 0, 1, 2, 4, 8, 13, 16, 31, 32, 64, 128]), stripe=st.sampled_from([0, 0, 8, 64]), resize=st.sampled_from([0, 0, 0, 2, 10, 2000, 100000, -1]), rem=st.integers(0, 700), offset=st.sampled_from([0, 0, 0, 512, 4096, 1000000]), packed=st.booleans(),
         nbackup=st.sampled_from([None, None, 0, 1, 2]), owner=st.sampled_from([None, None, '1000:1000', '0:0']), orphsz=st.sampled_from([0, 0, 0, 32, 64]), quotatype=st.sampled_from([None, None, 'usrquota', 'usrquota:grpquota:prjquota', 'grpquota']),
-        tree=st.sampled_from([0, 0, 0, 1, 2]), sizemode=st.integers(0, 12), groups=st.sampled_from([1, 1, 2, 3, 4, 5, 7, 8, 9, 15, 16, 17, 25, 26, 27, 31, 32, 33, 49, 50, 63, 64, 65, 127, 128, 129, 256, 257]), delta=st.integers(-3, 60), lazy=st.booleans()))
+        tree=st.sampled_from([0, 0, 0, 1, 2]), sizemode=st.integers(0, 19), groups=st.sampled_from([1, 1, 2, 3, 4, 5, 7, 8, 9, 15, 16, 17, 25, 26, 27, 31, 32, 33, 49, 50, 63, 64, 65, 127, 128, 129, 256, 257]), delta=st.integers(-3, 60), lazy=st.booleans()))
 
 def envinit(widx):
     env = hyp.img_env(widx, variants=('asan',))
